@@ -338,8 +338,15 @@ def sem_acquire(ex, n, awaited, recv):
     return sem_acquire_await(ex, recv)
 
 
-def sem_acquire_await(ex, recv):
-    """A6: returns holding one permit; a cancelled acquire holds nothing."""
+def sem_acquire_await(ex, recv, check_loop=None):
+    """A6: returns holding one permit; a cancelled acquire holds nothing. An asyncio.Semaphore that has blocked in one event loop
+    raises RuntimeError when it has to block in another one: `check_loop(ok)` receives that pre-condition."""
+    from .symexec import MOD
+    cur = ex.read_field(MOD, 'g$current_loop')
+    bound = ex.read_field(recv.term, 'sem_loop')
+    if check_loop is not None:
+        check_loop(z3.Or(bound.term == NONE, bound.term == cur.term))
+    ex.write_field(recv.term, 'sem_loop', V(bound.ty, z3.If(bound.term == NONE, cur.term, bound.term)))
     ex.suspend('Semaphore.acquire')
     val = ex.read_field(recv.term, 'sem_value')
     ex.assume(val.term > 0)
@@ -357,6 +364,7 @@ def sem_new(ex, n, awaited, recv=None):
     v = ex.fresh_obj('Semaphore')
     lim = coerce(ex.eval(n.args[0]), INT) if n.args else mk_int(1)
     ex.write_field(v.term, 'sem_value', lim)
+    ex.write_field(v.term, 'sem_loop', mk_none())
     return v
 
 
@@ -425,6 +433,8 @@ def install(spec: Spec):
     spec.methods[('Semaphore', 'acquire')] = sem_acquire
     spec.methods[('Semaphore', 'release')] = sem_release
     spec.fields.setdefault('sem_value', INT)
+    spec.fields.setdefault('sem_loop', parse_ty('opt[Loop]'))
+    spec.fields.setdefault('g$current_loop', parse_ty('Loop'))
     g = spec.globals.setdefault('*', {})
     for name in ('set', 'len', 'max', 'min', 'isinstance', 'issubclass', 'hasattr', 'id', 'str', 'range', 'list', 'sum', 'all', 'any', 'type',
                  'getattr', 'callable', 'cast', 'old'):
@@ -445,7 +455,7 @@ def install(spec: Spec):
     g['MODULE'] = ('const', V(ANY, MOD))
     g['UTC'] = ('const', V(PY, py=('UTC',)))
     install_specfuns(spec)
-    spec.builtin_effects = {'acquire': ['sem_value'], 'release': ['sem_value']}
+    spec.builtin_effects = {'acquire': ['sem_value', 'sem_loop'], 'release': ['sem_value']}
 
 
 # ---------------------------------------------------------------------------------------------
